@@ -10,7 +10,8 @@ overlapping FeatureVariationRecords (vmon/gen/c07_fvars.py), shaped in every cel
 CFF fonts with seac-style accented glyphs (vmon/gen/c07_cff.py); generated layout-rich (variable) fonts
 (vmon/gen/c07_lay.py: several lookup records at one position chained through 1:1 substitutions, language systems
 extending/excluding the default's features shaped with every declared language, anchors/values variable in one
-coordinate or carrying hinting devices, useExtension on every lookup type, mark filtering sets); corpus fonts whose format-12 and format-4 Unicode
+coordinate or carrying hinting devices, useExtension on every lookup type, mark filtering sets, REQUIRED features at FeatureList index 0 / 1 / last, listed
+or not in FeatureIndex, in default and per-language systems); corpus fonts whose format-12 and format-4 Unicode
 subtables disagree on BMP code points) × random requests × random option combinations, driven through the real
 `Subsetter`.  Monitors sit on `Subsetter.subset`, `_closure_glyphs`, every per-table
 `closure_glyphs/subset_glyphs/prune_*` method the subsetter registers on table classes,
@@ -725,6 +726,15 @@ def _run(case, ctx):
         optd = _draw_options(rnd, S0, tables0, len(orig_order))
         if case["variant"] == "vvar" and rnd.random() < 0.35:
             optd["retain_gids"] = True
+        req_tags = (case.get("_prog") or {}).get("required_tags") or []
+        if req_tags:
+            # a required feature cannot be switched off in HarfBuzz: requests keep its tag and the GSUB closure
+            optd.pop("layout_closure", None)
+            lf = optd.get("layout_features")
+            if lf is None:
+                optd["layout_features"] = sorted(set(_default_features()) | set(req_tags))
+            elif lf != ["*"]:
+                optd["layout_features"] = sorted(set(lf) | set(req_tags))
         if case["variant"] == "genfv" and rnd.random() < 0.6:
             tg = case["_prog"]["tags"]
             optd["layout_features"] = sorted(rnd.sample(tg, rnd.randint(1, max(1, len(tg) - 1))))
@@ -749,6 +759,12 @@ def _input_drawable(orig_bytes, cache):
         except Exception:
             cache["drawable"] = False
     return cache["drawable"]
+
+
+def _default_features():
+    from fontTools import subset as SS
+
+    return list(SS.Options().layout_features)
 
 
 def variable_font(h):
